@@ -262,12 +262,17 @@ CLAIMED = {
         "loop_equal_rhythm; kernel example with two voices in 3/4); playTracks_equal_rhythm / playComposition_equal_rhythm "
         "(C18Tracks.lean: ANY number of tracks and bars - when at every bar index the simultaneous bars are inside that domain, "
         "the whole trace is one instrument announcement per track, then group after group the column traces, observers "
-        "included, the tempo returned; kernel example with two tracks of two bars through play_Composition). "
+        "included, the tempo returned; kernel example with two tracks of two bars through play_Composition); "
+        "playBars_equal_rhythm_tempo / playTracks_equal_rhythm_tempo / playComposition_equal_rhythm_tempo (C18Tempo.lean: the "
+        "same with tempo-changing containers anywhere: the scheduler takes over the tempo of every entry it starts, in voice "
+        "order, so each step sleeps at the tempo of the LAST voice whose entry carries one, that tempo stays in force - "
+        "bpmBefore - across steps and bar groups, and the tempo in force at the end is returned; any number of voices, "
+        "entries, bars and tempo changes, no tempo 0; bpmBefore_plain recovers the case without tempos; kernel examples). "
         "parallel_counterexample: halves against "
         "quarters re-trigger (kernel) = known finding C18-parallel-scheduler. Tie A: every statement of Sequencer, "
         "SequencerObserver.notify, GM names.",
-   note=TRUST + "Partial: the equal-rhythm theorems exclude tempo-changing containers inside parallel playback (those are "
-        "compared with the model and judged by the oracle's timeline); sleeps are IEEE doubles 60/bpm*4/value, compared with 240/(bpm*value) by the oracle to 1e-9. Known "
+   note=TRUST + "Partial: parallel playback OUTSIDE the equal-rhythm/exact-fill domain is the known finding, not a theorem; "
+        "sleeps are IEEE doubles 60/bpm*4/value, compared with 240/(bpm*value) by the oracle to 1e-9. Known "
         "finding C18-parallel-scheduler (matcher: a parallel call outside the equal-rhythm/exact-fill domain); one defect "
         "repaired by a fix: commit (306af39).",
    design="§4 C18"),
@@ -297,7 +302,7 @@ CLAIMED = {
    note=TRUST + "Partial: the Lean readers cover the vocabulary of values and the 30 keys (what the library's own constructors "
         "produce); other values and the text of whole files are tied by the character-exact correspondence and decoded per generated program by the "
         "independent Python reader. XML text-level well-formedness and escaping are minidom's, validated per document by expat "
-        "(not provable here). Titles containing a double quote are outside the LilyPond domain (the header is not escaped). "
+        "(not provable here). Titles containing a double quote cannot be read back as LilyPond (the header is not escaped): for them the check asks only that the header carries the text as written. "
         "Two defects repaired by fix: commits (14be814, deaaf2d).",
    design="§4 C19"),
  "C20": dict(
